@@ -363,6 +363,11 @@ OPT_SWARM = [["-L"], ["-u"], ["-C"], ["-s"], ["-g", "MAP"], ["-g", "NOICE"], ["-
              ["-gnuerrors"], ["-a"], ["-c"], ["-p"], ["-h"], ["-l"], ["-Werror"], ["-t", "3"], ["-I"]]
 
 
+# every report the assembler can write about a program, at once (listing with usage, cross reference and section lists,
+# debug info, macro output files): the statement's effect on the bookkeeping behind them is exercised too
+ALL_REPORTS = ["-L", "-u", "-C", "-s", "-I", "-g", "MAP", "-P", "-M", "-x", "-x"]
+
+
 _MACDEF = re.compile(rb"^([A-Za-z_.$@][\w.$@]*):?[ \t]+macro\b", re.I | re.M)
 
 
@@ -646,6 +651,15 @@ def run_one(sim, acc, prog, sc, origin, kind, nontrivial_off=None):
             r, san, cls = r2, san2, oracle.classify(prog, r2, san2)
     if cls == "asl/hang/line-budget":
         cls = refine_pass_hang(sim, prog, sc, cls)
+    if cls is None and prog == "asl" and r.kind == 0:
+        # output proportional to the input: a source without any repetition construct cannot legitimately make the assembler
+        # write more than a few KiB per input byte.  (An endless report is otherwise only stopped by the simulated disk
+        # filling up, which ends the run with the documented I/O-error status and would pass for a normal exit.)
+        inp = sum(len(v) for v in sc.get("disk", {}).values())
+        if r.bytes_written > (1 << 20) + 4096 * inp:
+            txt = b"\n".join(v if isinstance(v, bytes) else v.encode("latin1") for v in sc.get("disk", {}).values()).lower()
+            if not re.search(rb"rept|irp|while|macro|dup|\[\d|include", txt):
+                cls = "asl/hang/output-budget"
     if cls and cls.endswith("/hang/cpu-limit") and any(v["class"] == cls for v in acc.violations):
         # an earlier input of this chunk already stands as a violation of this class (it was not exempted by its caller)
         raise RepeatedHangs()
@@ -977,19 +991,22 @@ def _run_case(sim, case, acc):
                 acc.bump(acc.probes, "hang_ignored_while_or_recursive_macro")
         acc.sample = {"space": "operand-level faults in golden sources", "example": lines[i].decode("latin1")}
     elif g in ("vocab1", "vocab1s"):
-        def one(ci, pi, ai, labelled):
+        def one(ci, pi, ai, labelled, reports):
             src = "\tcpu %s\n%s\t%s\t%s\n" % (CPUS[ci], "lab" if labelled else "", PSEUDO[pi], tame(PSEUDO[pi], ARGS[ai]))
-            run_one(sim, acc, "asl", sc_asl(src), "E7 single %s %s %r" % (CPUS[ci], PSEUDO[pi], ARGS[ai]), "vocabulary")
+            run_one(sim, acc, "asl", sc_asl(src, ALL_REPORTS if reports else []),
+                    "E7 single %s %s %r%s" % (CPUS[ci], PSEUDO[pi], ARGS[ai], " with every report" if reports else ""), "vocabulary")
         if g == "vocab1":
             for idx in range(case["lo"], case["hi"]):
                 ai = idx % len(ARGS)
                 pi = (idx // len(ARGS)) % len(PSEUDO)
                 ci = idx // (len(ARGS) * len(PSEUDO))
-                one(ci, pi, ai, idx & 1)
+                one(ci, pi, ai, idx & 1, False)
+                if ci in (0, 1):  # the report writers are target independent: two targets suffice
+                    one(ci, pi, ai, idx & 1, True)
         else:
             rng = Rng(case["seed"])
             for _ in range(case["n"]):
-                one(rng.below(len(CPUS)), rng.below(len(PSEUDO)), rng.below(len(ARGS)), rng.below(2))
+                one(rng.below(len(CPUS)), rng.below(len(PSEUDO)), rng.below(len(ARGS)), rng.below(2), rng.chance(0.4))
         acc.sample = {"space": "E7 singles", "example": "\tcpu z80\nlab\tENUM\t]\n"}
     elif g == "vocabn":
         rng = Rng(case["seed"])
